@@ -257,6 +257,20 @@ fn d1_fixed_cases() -> Vec<Case> {
     ));
     // --- out-of-order delivery (a file that breaks perf's round contract; simpleperf emits back-dated MMAP2
     // records, process_threads.rs:95-96). Candidate finding C02-backdated-record.
+    // a back-dated MMAP2 record alone in its queue, delivered after later-stamped records of other kinds: it
+    // keeps its own timestamp (`last_timestamp` is overwritten by every record that has a time, import/perf.rs:
+    // 200-207) and applies to the sample stamped 2000 that was delivered before it. Green on the unchanged tree.
+    let h = history_from_file_rounds(
+        1000,
+        vec![
+            vec![comm(100, 800), sample(100, 100, 2000, 0x50_0100, &[0x50_0200])],
+            vec![comm(100, 5000)],
+            vec![comm(100, 6000)],
+            vec![mmap(100, 0x50_0000, 0x2000, 0, "/nonexistent-verif/opt/tool", 1000), comm(100, 7000)],
+            vec![sample(100, 100, 8000, 0x50_0100, &[])],
+        ],
+    );
+    v.push(Case { name: "backdated-mmap-alone".to_string(), ops: h.to_ops() });
     if finding_enabled(FINDING_BACKDATED) {
         // a mapping announced at 1000 but delivered after one stamped 5000 is queued behind it and never
         // applied to the sample at 2000
